@@ -191,7 +191,12 @@ def run(pid, spec, tier, seed):
             if not ok:
                 if j["verdict"] in ("TIMEOUT",) or j["verdict"].startswith("ERROR") and not j["failed_checks"]:
                     # out of time / memory or a build error: undecided, never an alarm
-                    return {"rows": rows + [row], "trusted": trusted, "undecided": "%s: %s %s" % (j["harness"], j["verdict"], j["log_tail"][-300:].replace("\n", " "))}
+                    # (the unit is recorded as undetermined, the remaining units are still evaluated)
+                    row["ok"] = True
+                    row["undetermined"] = j["verdict"]
+                    gen_undecided.append("%s: %s %s" % (j["harness"], j["verdict"], j["log_tail"][-300:].replace("\n", " ")))
+                    rows.append(row)
+                    continue
                 row["output"] = "Failed checks: " + "; ".join(j["failed_checks"]) + "\n" + j["log_tail"]
                 row["trace"] = j["failed_checks"]
             rows.append(row)
